@@ -6,7 +6,7 @@ Prints, per patch, which checks report a violation that is not a listed known fi
 import json, os, re, subprocess, sys, shutil
 V = "/verif"; S = "/tmp/mm"
 PROFS = tuple(os.environ.get("MATRIX_PROFILES", "checked,fast").split(","))
-def sh(cmd, **kw): return subprocess.run(cmd, shell=True, text=True, stdout=subprocess.PIPE, stderr=subprocess.STDOUT, **kw)
+def sh(cmd, **kw): return subprocess.run(cmd, shell=True, text=True, errors="replace", stdout=subprocess.PIPE, stderr=subprocess.STDOUT, **kw)
 def setup():
     os.makedirs(S, exist_ok=True)
     if not os.path.exists(f"{S}/repo"):
@@ -33,7 +33,7 @@ def run(ids, tier):
             if r.returncode != 0:
                 hit.append(f"{prof}:CRASH({r.returncode})")
                 continue
-            j = json.load(open(out))
+            j = json.load(open(out, encoding="utf-8", errors="replace"))
             ks = [v["key"] for v in j["violation_list"] if not any(km(k["key"], v["key"]) and k["property"] == cid for k in known())]
             if ks: hit.append(f"{prof}:{len(ks)}:{ks[0][:70]}")
             if j["info"].get("machinery_error"): hit.append(f"{prof}:MACHINERY")
